@@ -63,7 +63,7 @@ def _gen_t(r):
 
 
 def gen_case(r, index, tier):
-    desc = designs.gen_allocation(r)
+    desc = designs.gen_allocation(r, offsets=True)
     n = r.randint(1, 8)
     ops = []
     for _ in range(n):
@@ -80,10 +80,14 @@ def gen_case(r, index, tier):
         elif k < 74:
             ops.append({"op": "stub", "on": on, "seed": r.below(1 << 30),
                         "mode": r.choice(["dominant", "ties", "empty", "random", "extract"]), "t": _gen_t(r)})
-        elif k < 82:
+        elif k < 80:
             ops.append({"op": "persist", "on": on})
-        elif k < 88:
+        elif k < 84:
             ops.append({"op": "restart"})
+        elif k < 87:
+            ops.append({"op": "fix", "on": on, "cell": r.below(16)})
+        elif k < 90:
+            ops.append({"op": "init_alloc", "on": on, "cell": r.below(16)})
         else:
             ops.append({"op": "loop", "on": on, "t": _gen_t(r), "cap": r.randint(2, 5),
                         "stub_seed": r.below(1 << 30) if r.chance(0.5) else None})
@@ -181,8 +185,39 @@ class MCell:
         return (self.x0, self.y0, self.x1, self.y1)
 
 
+# geometry of the cells the *model* knows to be fixed, for the whole pool of one simulated process (a fixed cell is never
+# cut, so its geometry identifies it); the implementation's own rect.fixed flags are NOT trusted for the oracle
+_model_fixed = {}   # id(allocation) -> set of cell geometries the model holds to be fixed in that allocation
+
+
 def _snapshot(alloc):
-    return [MCell(ra) for ra in alloc.allocations]
+    cells = [MCell(ra) for ra in alloc.allocations]
+    fk = _model_fixed.get(id(alloc), set())
+    for c in cells:
+        c.fixed = c.key() in fk
+    return cells
+
+
+def _inherit_fixed(old, new_alloc, tol):
+    """The model's rule: a cell of the result is fixed iff it lies in a cell of the operand that the model holds fixed."""
+    new = [MCell(ra) for ra in new_alloc.allocations]
+    fk = set()
+    fixed_old = [p for p in old if p.fixed]
+    for c in new:
+        for p in fixed_old:
+            if p.x0 - tol.len <= c.cx <= p.x1 + tol.len and p.y0 - tol.len <= c.cy <= p.y1 + tol.len:
+                fk.add(c.key())
+                break
+    _model_fixed[id(new_alloc)] = fk
+
+
+def _flag_object(pool, rect):
+    """The harness (or the library's initial_allocation) flagged this Rectangle object: every allocation of the pool that
+    holds the very same object holds the same cell."""
+    for X in pool:
+        for ra in X.allocations:
+            if ra.rect is rect:
+                _model_fixed.setdefault(id(X), set()).add(MCell(ra).key())
 
 
 def _area(c):
@@ -511,6 +546,8 @@ def run_case(case):
         viol.append({"property": "C02", "clause": "valid allocation rejected by the constructor", "key": {"op": "load"},
                      "detail": {"exc": repr(e)}})
         return _result(case, viol, hist, probes, ops_count, fired, configured, sig, 0)
+    _model_fixed.clear()
+    _model_fixed[id(a0)] = {MCell(ra).key() for ra in a0.allocations if ra.rect.fixed}
     pool = [a0]
     persisted = None  # (path, snapshot)
     npersist = 0
@@ -548,6 +585,7 @@ def run_case(case):
                         outcome = "aborted at " + str(B)
                     else:
                         refine_ops += 1
+                        _inherit_fixed(old, B, tol)
                         new = _snapshot(B)
                         groups = _check_conservation(old, new, A, B, tol, viol, "refine")
                         _check_refine(old, new, groups, t, lv, tol, viol)
@@ -590,6 +628,7 @@ def run_case(case):
                         outcome = "aborted at " + str(B)
                     else:
                         refine_ops += 1
+                        _inherit_fixed(old, B, tol)
                         new = _snapshot(B)
                         groups = _check_conservation(old, new, A, B, tol, viol, "uniform")
                         _check_uniform(old, new, groups, tol, viol)
@@ -608,6 +647,7 @@ def run_case(case):
                         outcome = "aborted at " + str(B)
                     else:
                         refine_ops += 1
+                        _inherit_fixed(old, B, tol)
                         new = _snapshot(B)
                         groups = _check_conservation(old, new, A, B, tol, viol, "griddify")
                         _check_grid(old, new, groups, tol, viol)
@@ -617,8 +657,41 @@ def run_case(case):
                             probe("griddify_more_y_than_x_boundaries")
                         pool.append(B)
                         entry["cells_after"] = len(new)
+            elif kind == "fix":
+                # a cell becomes fixed after the allocation object was built (what _detect_fixed_rectangles does to its
+                # receiver, and what the suite's test_griddify does by hand)
+                cell = A.allocations[o["cell"] % len(A.allocations)]
+                cell.rect.fixed = True
+                _flag_object(pool, cell.rect)
+                probe("cell_flagged_fixed_after_construction")
+            elif kind == "init_alloc":
+                # the library's own way of flagging cells: initial_allocation() of a netlist with a fixed module that
+                # covers exactly one cell flags that cell of the *receiver* (and shares the Rectangle with the result)
+                j = o["cell"] % len(A.allocations)
+                cj = A.allocations[j].rect
+                mods = {}
+                for m in sorted({m for a in A.allocations for m in a.alloc}):
+                    if A.area(m) > 0:
+                        mods[m] = {"area": A.area(m), "center": [A.center(m).x, A.center(m).y]}
+                fname = "FY%d" % j
+                mods[fname] = {"fixed": True, "rectangles": [[cj.center.x, cj.center.y, cj.shape.w, cj.shape.h]]}
+                import frame.netlist.netlist as _N
+                B = None
+                try:
+                    net = _N.Netlist({"Modules": mods, "Nets": []})
+                    B = A.initial_allocation(net)
+                except (AssertionError, ZeroDivisionError) as e:
+                    outcome = "skipped(initial allocation refused: %s)" % str(e)[:40]
+                if B is not None:
+                    pool.append(B)
+                    _model_fixed[id(B)] = set()
+                    entry["cells_after"] = B.num_rectangles
+                    probe("initial_allocation_flagged_receiver_cell")
+                if cj.fixed:  # flagged by _detect_fixed_rectangles, whether or not the call went on to succeed
+                    _flag_object(pool, cj)
             elif kind == "stub":
                 B = _A.Allocation(_stub_optimise(A, o["seed"], o["mode"], o["t"]))
+                _inherit_fixed(old, B, tol)
                 pool.append(B)
                 entry["cells_after"] = B.num_rectangles
                 probe("stub_" + o["mode"])
@@ -655,13 +728,17 @@ def run_case(case):
                 else:
                     path, snap = persisted
                     pool = []  # every object of the crashed process is gone
+                    _model_fixed.clear()  # ... and so are the fixed flags: the document does not carry them
                     B = _A.Allocation(path)
+                    _model_fixed[id(B)] = set()
                     new = _snapshot(B)
                     fired["restart"] = fired.get("restart", 0) + 1
                     if any(c.depth > 0 for c in snap):
                         probe("restart_with_depth_gt_0")
                     if any(c.fixed for c in snap):
                         probe("restart_loses_fixed_flag")
+                    for c_ in snap:
+                        c_.fixed = False
                     same = len(new) == len(snap) and all(
                         a.key() == b.key() and a.alloc == b.alloc and a.depth == b.depth for a, b in zip(snap, new))
                     if not same:
@@ -691,10 +768,13 @@ def run_case(case):
                                                     "empty_cells": sum(1 for p in snap_b if not p.alloc),
                                                     "fixed_cells": sum(1 for p in snap_b if p.fixed)}})
                             break
+                        _inherit_fixed(snap_b, nxt, tol)
                         cur = nxt
                         if sr is not None and sr.chance(0.5):
+                            snap_c = _snapshot(cur)
                             cur = _A.Allocation(_stub_optimise(cur, sr.below(1 << 30), sr.choice(
                                 ["dominant", "ties", "random"]), t))
+                            _inherit_fixed(snap_c, cur, tol)
                     return cur
 
                 st, B = run_op(body, fault)
